@@ -331,6 +331,10 @@ macro_rules! insphere2d_cube2 {
     };
 }
 
+// quick tier: the G=1 grid with a simplex edge fixed (81 configurations per formulation)
+insphere2d_cube2!(c12_insphere2d_fast_g1_edge, 1, [0, 0], [1, 0], call_fast_in_sphere);
+insphere2d_cube2!(c12_insphere2d_lifted_g1_edge, 1, [0, 0], [0, 1], call_insphere_lifted);
+insphere2d_cube2!(c12_insphere2d_robust1_g1_edge, 1, [0, 0], [1, 0], call_robust_stage1);
 insphere2d_cube2!(c12_insphere2d_fast_g3_edge_a, 3, [0, 0], [1, 0], call_fast_in_sphere);
 insphere2d_cube2!(c12_insphere2d_fast_g3_edge_b, 3, [-3, 2], [3, -1], call_fast_in_sphere);
 insphere2d_cube2!(c12_insphere2d_lifted_g3_edge_a, 3, [0, 0], [1, 0], call_insphere_lifted);
